@@ -1,4 +1,305 @@
-/-! Model/C20 — executable model (core Lean only; imports only NibabelModel.Basic.* / other Model files). -/
+/-! Model/C20 — executable model of PAR/REC volume assembly (nibabel/parrec.py), core Lean only.
+
+What is modelled (line numbers of /repo/nibabel/parrec.py after the `fix:` commits):
+
+* `vol_numbers` (394-416), `vol_is_full` (419-455), `_truncation_checks` (458-489);
+* `PARRECHeader._get_n_slices/_get_n_vols/_calc_data_shape` (992-1028, slice/volume part);
+* `PARRECHeader._strict_sort_order` (1093-1166, CURRENT logic: volumes numbered and tested for
+  completeness WITHIN each run of records sharing all non-slice sort keys) and the ORIGINAL pinned
+  logic (`strictOrderOrig`: `vol_numbers`/`vol_is_full` over the whole sorted sequence, final
+  `lexsort((vol_nos, is_full))`);
+* `_lax_sort_order` (1168-1179), `get_sorted_slice_indices` (1181-1210);
+* `get_data_scaling` (1030-1077; dv and fp), `PARRECArrayProxy._get_unscaled` (649-656: gather of the
+  REC slabs by the index list, F-order reshape), `get_volume_labels` (1212-1262).
+
+Abstractions (trusted, exercised by the correspondence run):
+
+* a slice record is the tuple of its integer label fields + three integer-valued scale factors + an
+  abstract pixel-slab payload id (the REC slab stored at the record's position);
+* `np.lexsort(keys)` = STABLE sort by the lexicographic order of the keys read from the LAST key to
+  the first; modelled as a stable insertion sort `stableSort` (structural recursion, so that `decide`
+  can evaluate it) over position-tagged records;
+* float arithmetic of the fp scaling (`1.0/ss`, `ri/(rs*ss)`) is exact rational arithmetic here;
+* everything else in the header (`recon resolution`, zooms, affine, dtype) is constant in a data set
+  and not modelled; `n_slices`/`n_vols` (the only inputs of shape and affine that depend on the
+  records) are.
+-/
 namespace Nb.C20
+
+/-- one image-definition line of the PAR file + the REC slab stored at the same position -/
+structure Rec where
+  slice : Int      -- 'slice number'
+  echo : Int       -- 'echo number'
+  dyn : Int        -- 'dynamic scan number'
+  phase : Int      -- 'cardiac phase number'
+  itype : Int      -- 'image_type_mr'
+  seq : Int        -- 'scanning sequence' (a volume label only, never a sort key)
+  bval : Int       -- 'diffusion b value number' (V4: the integer-valued 'diffusion_b_factor')
+  grad : Int       -- 'gradient orientation number' (absent in V4)
+  label : Int      -- 'label type' (ASL; V4.2 only)
+  ri : Int         -- 'rescale intercept'
+  rs : Int         -- 'rescale slope'
+  ss : Int         -- 'scale slope'
+  payload : Nat    -- identity of the pixel slab
+deriving DecidableEq, Repr, Inhabited
+
+inductive Version | v4 | v41 | v42
+deriving DecidableEq, Repr
+
+/-- the part of `general_info` the assembly logic reads -/
+structure Cfg where
+  version : Version
+  diffusion : Bool        -- `general_info['diffusion'] != 0`
+  maxSlices : Int
+  maxEchoes : Int
+  maxDynamics : Int
+  maxDiffValues : Int     -- read only for V4.1/V4.2
+  maxGradOrient : Int     -- read only for V4.1/V4.2
+deriving DecidableEq, Repr
+
+inductive Err | parrec | value
+deriving DecidableEq, Repr
+
+def Cfg.hasGrad (c : Cfg) : Bool := c.version != .v4
+def Cfg.hasLabel (c : Cfg) : Bool := c.version == .v42
+
+/-! ### stable sort (np.lexsort) -/
+
+/-- lexicographic `≤` on key lists (first element = highest precedence) -/
+def lexLe : List Int → List Int → Bool
+  | [], _ => true
+  | _ :: _, [] => false
+  | a :: as, b :: bs => if a < b then true else if b < a then false else lexLe as bs
+
+/-- insert `a` before the first element that is not strictly smaller -/
+def insertSorted {α} (le : α → α → Bool) (a : α) : List α → List α
+  | [] => [a]
+  | b :: l => if le a b then a :: b :: l else b :: insertSorted le a l
+
+/-- stable insertion sort (an element is placed before the equal elements that followed it) -/
+def stableSort {α} (le : α → α → Bool) : List α → List α
+  | [] => []
+  | a :: l => insertSorted le a (stableSort le l)
+
+/-! ### sort keys -/
+
+/-- all non-slice keys of `_strict_sort_order`, highest precedence first:
+    image_type_mr, dynamic, [label type], [b value, [gradient orientation]], cardiac phase, echo
+    (`keys = (slice, echo, phase) + diffusion_keys + asl_keys + (dynamics, image_type)`, lexsort reads
+    them from the last). -/
+def labelKey (c : Cfg) (r : Rec) : List Int :=
+  [r.itype, r.dyn] ++ (if c.hasLabel then [r.label] else []) ++
+  (if c.diffusion then ([r.bval] ++ (if c.hasGrad then [r.grad] else [])) else []) ++
+  [r.phase, r.echo]
+
+def strictKey (c : Cfg) (r : Rec) : List Int := labelKey c r ++ [r.slice]
+
+def strictLe (c : Cfg) (a b : Rec) : Bool := lexLe (strictKey c a) (strictKey c b)
+
+/-! ### vol_numbers / vol_is_full -/
+
+def occAux {α} [BEq α] (seen : List α) : List α → List Nat
+  | [] => []
+  | s :: rest => seen.count s :: occAux (s :: seen) rest
+
+/-- number of earlier occurrences of the same value, per position -/
+def occNumbers {α} [BEq α] (l : List α) : List Nat := occAux [] l
+
+/-- `vol_numbers`: number of earlier occurrences of the same slice number -/
+def volNumbers (l : List Int) : List Nat := occNumbers l
+
+/-- `range(1, slice_max+1)` -/
+def sliceRange (smax : Int) : List Int := (List.range smax.toNat).map (fun (i : Nat) => (i : Int) + 1)
+
+def inRange (smax : Int) (s : Int) : Bool := decide (1 ≤ s) && decide (s ≤ smax)
+
+/-- Volume numbers and fullness of slice numbers tagged with a set identifier `τ`: the volume number
+    of a position counts the earlier positions of the SAME set with the same slice number
+    (`vol_numbers(slice_nos[ours])`), and a position is full when every slice number of the range
+    occurs in its set with its volume number (`vol_is_full(slice_nos[ours], max)`: for every volume
+    number of the set, `set(slice_nos[vol]) == slice_set`; `⊆` holds by the range check). -/
+def volsAndFull {τ} [BEq τ] (tagged : List (τ × Int)) (smax : Int) : List (Nat × Bool) :=
+  let vn := occNumbers tagged
+  let pairs := tagged.zip vn
+  pairs.map fun tv => (tv.2, (sliceRange smax).all fun s => pairs.contains ((tv.1.1, s), tv.2))
+
+/-- `vol_numbers(slice_nos)` zipped with `vol_is_full(slice_nos, slice_max)` over a whole slice-number
+    sequence (one set, tag `()`); ValueError when a slice number is outside 1..slice_max -/
+def volsFullGlobal (sl : List Int) (smax : Int) : Except Err (List (Nat × Bool)) :=
+  if sl.all (inRange smax) then .ok (volsAndFull (sl.map fun s => ((), s)) smax)
+  else .error .value
+
+/-- `vol_is_full(slice_nos, slice_max)` -/
+def volIsFull (sl : List Int) (smax : Int) : Except Err (List Bool) :=
+  (volsFullGlobal sl smax).map (·.map (·.2))
+
+def dedup {α} [DecidableEq α] : List α → List α
+  | [] => []
+  | a :: l => if a ∈ dedup l then dedup l else a :: dedup l
+
+def distinctCount {α} [DecidableEq α] (l : List α) : Nat := (dedup l).length
+
+/-! ### `_truncation_checks` -/
+
+def truncationChecks (c : Cfg) (permit : Bool) (recs : List Rec) : Except Err Unit := do
+  let mism (vals : List Int) (expected : Int) : Bool := (distinctCount vals : Int) != expected
+  let bad :=
+    mism (recs.map (·.slice)) c.maxSlices || mism (recs.map (·.echo)) c.maxEchoes ||
+    mism (recs.map (·.dyn)) c.maxDynamics ||
+    (c.hasGrad && (mism (recs.map (·.bval)) c.maxDiffValues || mism (recs.map (·.grad)) c.maxGradOrient))
+  if bad && !permit then throw .parrec
+  let full ← volIsFull (recs.map (·.slice)) c.maxSlices
+  if !(full.all id) && !permit then throw .parrec
+  pure ()
+
+/-! ### shape -/
+
+def nSlices (recs : List Rec) : Nat := distinctCount (recs.map (·.slice))
+
+/-- `_get_n_vols`: distinct GLOBAL volume numbers (file order) of the positions in full volumes -/
+def nVols (c : Cfg) (recs : List Rec) : Except Err Nat := do
+  let vf ← volsFullGlobal (recs.map (·.slice)) c.maxSlices
+  pure (distinctCount ((vf.filter (·.2)).map (·.1)))
+
+/-- `prod(get_data_shape()[2:])` -/
+def nUsedOf (ns nv : Nat) : Nat := ns * (if nv > 1 then nv else 1)
+
+def shapeTail (ns nv : Nat) : List Nat := if nv > 1 then [ns, nv] else [ns]
+
+/-! ### sort orders -/
+
+def indexedFrom {α} (i : Nat) : List α → List (Nat × α)
+  | [] => []
+  | a :: l => (i, a) :: indexedFrom (i + 1) l
+
+/-- records tagged with their position in the PAR file (= position of their slab in the REC file) -/
+def indexed {α} (l : List α) : List (Nat × α) := indexedFrom 0 l
+
+/-- `set_nos`: number of label changes before each position of the (sorted) key sequence -/
+def setNosAux (cur : Nat) (prev : List Int) : List (List Int) → List Nat
+  | [] => []
+  | k :: rest => let n := if k = prev then cur else cur + 1; n :: setNosAux n k rest
+
+def setNos : List (List Int) → List Nat
+  | [] => []
+  | k :: rest => 0 :: setNosAux 0 k rest
+
+/-- second-stage keys of one position: (not is_full, set number, volume number within the set) -/
+structure Ann where
+  notFull : Bool
+  setNo : Nat
+  volNo : Nat
+deriving DecidableEq, Repr
+
+def annLe (a b : Ann) : Bool :=
+  if a.notFull != b.notFull then !a.notFull
+  else if a.setNo != b.setNo then decide (a.setNo < b.setNo)
+  else decide (a.volNo ≤ b.volNo)
+
+/-- the loop over `np.unique(set_nos)`: `vol_nos[ours] = vol_numbers(slice_nos[ours])`,
+    `is_full[ours] = vol_is_full(slice_nos[ours], max_slices)` (ValueError for a slice number outside
+    the range) — per position, with the set number as tag -/
+def annotate (c : Cfg) (sorted : List Rec) : Except Err (List Ann) :=
+  if (sorted.map (·.slice)).all (inRange c.maxSlices) then
+    let sets := setNos (sorted.map (labelKey c))
+    let vf := volsAndFull (sets.zip (sorted.map (·.slice))) c.maxSlices
+    .ok ((sets.zip vf).map fun x => ⟨!x.2.2, x.1, x.2.1⟩)
+  else .error .value
+
+/-- CURRENT `_strict_sort_order`: position-tagged records in final order -/
+def strictOrder (c : Cfg) (recs : List Rec) : Except Err (List (Nat × Rec)) := do
+  let s1 := stableSort (fun a b => strictLe c a.2 b.2) (indexed recs)
+  let ann ← annotate c (s1.map (·.2))
+  let s2 := stableSort (fun a b => annLe a.1 b.1) (ann.zip s1)
+  pure (s2.map (·.2))
+
+/-- ORIGINAL (pinned) `_strict_sort_order`: volume numbers and fullness over the WHOLE sorted
+    sequence; second stage `lexsort((vol_nos, is_full))` (is_full ascending: partial first) -/
+def strictOrderOrig (c : Cfg) (recs : List Rec) : Except Err (List (Nat × Rec)) := do
+  let s1 := stableSort (fun a b => strictLe c a.2 b.2) (indexed recs)
+  let keys ← volsFullGlobal (s1.map (·.2.slice)) c.maxSlices
+  let le (a b : Nat × Bool) : Bool :=
+    if a.2 != b.2 then !a.2 else decide (a.1 ≤ b.1)
+  let s2 := stableSort (fun a b => le a.1 b.1) (keys.zip s1)
+  pure (s2.map (·.2))
+
+/-- `_lax_sort_order`: lexsort((slice, vol_numbers(slice), not is_full)) on the file order -/
+def laxLe (a b : Bool × Nat × Int) : Bool :=
+  if a.1 != b.1 then !a.1
+  else if a.2.1 != b.2.1 then decide (a.2.1 < b.2.1)
+  else decide (a.2.2 ≤ b.2.2)
+
+def laxKeys (c : Cfg) (recs : List Rec) : Except Err (List (Bool × Nat × Int)) := do
+  let sl := recs.map (·.slice)
+  let vf ← volsFullGlobal sl c.maxSlices
+  pure ((vf.zip sl).map fun x => (!x.1.2, x.1.1, x.2))
+
+def laxOrder (c : Cfg) (recs : List Rec) : Except Err (List (Nat × Rec)) := do
+  let keys ← laxKeys c recs
+  let s := stableSort (fun a b => laxLe a.1 b.1) (keys.zip (indexed recs))
+  pure (s.map (·.2))
+
+def sortOrder (c : Cfg) (strict : Bool) (orig : Bool) (recs : List Rec) : Except Err (List (Nat × Rec)) :=
+  if strict then (if orig then strictOrderOrig c recs else strictOrder c recs) else laxOrder c recs
+
+/-- `get_sorted_slice_indices`: sort, then keep the first `prod(shape[2:])` positions -/
+def sortedSlices (c : Cfg) (strict : Bool) (orig : Bool) (recs : List Rec) :
+    Except Err (List (Nat × Rec)) := do
+  let order ← sortOrder c strict orig recs
+  let nv ← nVols c recs
+  pure (order.take (nUsedOf (nSlices recs) nv))
+
+/-! ### scaling, labels, whole load -/
+
+inductive Scaling | dv | fp
+deriving DecidableEq, Repr
+
+/-- `get_data_scaling`: dv: (RS, RI); fp: (1/SS, RI/(RS*SS)) -/
+def slopeOf (m : Scaling) (r : Rec) : Rat :=
+  match m with
+  | .dv => r.rs
+  | .fp => 1 / (r.ss : Rat)
+
+def interOf (m : Scaling) (r : Rec) : Rat :=
+  match m with
+  | .dv => r.ri
+  | .fp => (r.ri : Rat) / ((r.rs : Rat) * (r.ss : Rat))
+
+/-- `dynamic_keys` of `get_volume_labels` in source order, restricted to the fields of the version -/
+def dynamicKeys (c : Cfg) : List (String × (Rec → Int)) :=
+  [("phase", (·.phase)), ("echo", (·.echo))] ++
+  (if c.hasLabel then [("label", (·.label))] else []) ++
+  [("itype", (·.itype)), ("dyn", (·.dyn)), ("seq", (·.seq))] ++
+  (if c.hasGrad then [("grad", (·.grad)), ("bval", (·.bval))] else [])
+
+/-- `get_volume_labels`: keys with more than one distinct value over ALL records; values of the
+    kept records whose slice number is 1, in output order -/
+def volumeLabels (c : Cfg) (recs : List Rec) (kept : List Rec) : List (String × List Int) :=
+  ((dynamicKeys c).filter (fun kf => distinctCount (recs.map kf.2) > 1)).map
+    (fun kf => (kf.1, (kept.filter (·.slice == 1)).map kf.2))
+
+structure Out where
+  shape : List Nat                  -- data shape without the two in-plane axes
+  idx : List Nat                    -- `get_sorted_slice_indices()`
+  data : List Nat                   -- payload of every output slice, F order over (slice, volume)
+  slopes : List Rat                 -- `get_data_scaling(method)[0]`, F order
+  inters : List Rat
+  labels : List (String × List Int)
+
+/-- `PARRECImage.load(..., permit_truncated, scaling, strict_sort)` reduced to the observables -/
+def load (c : Cfg) (permit strict : Bool) (m : Scaling) (orig : Bool) (recs : List Rec) :
+    Except Err Out := do
+  truncationChecks c permit recs
+  let nv ← nVols c recs
+  let ns := nSlices recs
+  let kept ← sortedSlices c strict orig recs
+  -- `reshape` of the gathered slopes / slabs to `shape` needs exactly prod(shape[2:]) entries
+  if kept.length ≠ nUsedOf ns nv then throw .value
+  pure { shape := shapeTail ns nv
+         idx := kept.map (·.1)
+         data := kept.map (·.2.payload)
+         slopes := kept.map (slopeOf m ·.2)
+         inters := kept.map (interOf m ·.2)
+         labels := volumeLabels c recs (kept.map (·.2)) }
 
 end Nb.C20
